@@ -51,6 +51,13 @@
          'replay':'c17_zones', 'witness_defines':[], 'witness_vars':['w_n','w_cap','w_x','w_xm','w_pos','w_posm','w_a','w_b','w_pt'],
          'claims':'Zones::insert(e) (weighted insert) keeps the interval set sorted, disjoint and in bounds and does not change the set of covered points (it never re-opens an excluded position and never loses a free one); a point strictly inside an interval and strictly inside e gets exactly e added to its three cost terms, a point outside [e.x,e.xm] keeps its cost terms; weight sums stay positive for non-negative e.sm'}@*/
 
+/*@unit {'name':'c17_vec_insert', 'props':['C17'], 'entry':'h_vec_insert', 'enforce':'Vector_insert', 'kind':'bounded', 'unwind':9, 'loop_contracts':False,
+         'bound':'vectors of at most 7 elements before the call, capacity 1..8 (exact-size storage object); ghost snapshot loop unwound 8 times',
+         'claims':'Vector<Exclusion>::insert(p,x) (with _insert_default and reserve, on CBMC\'s realloc/memmove models): size grows by one, the returned iterator addresses slot p-begin() of the possibly moved storage, slots before it keep their value, the slot holds x, later slots hold their left neighbour\'s old value (bit-wise); storage is kept when the size rounded up to 8 fits, else moved to a fresh block of 8 and the old block is freed; no access outside the storage object'}@*/
+/*@unit {'name':'c17_vec_erase', 'props':['C17'], 'entry':'h_vec_erase', 'enforce':'Vector_erase', 'kind':'bounded', 'unwind':9, 'loop_contracts':False,
+         'bound':'vectors of at most 8 elements, capacity 1..8 (exact-size storage object); destructor loop and ghost snapshot loop unwound 8 times',
+         'claims':'Vector<Exclusion>::erase(p): size shrinks by one, storage and capacity are kept, slots before p keep their value, slots from p on hold their right neighbour\'s old value, the returned iterator is p; no access outside the storage object'}@*/
+
 /* ------------------------------------------------------------------ shim structs (fields as in Intervals.h / List.h) */
 typedef struct Exclusion { float x, xm, c, sm, smx; bool open; } Exclusion;
 typedef Exclusion *iterator;
@@ -438,8 +445,6 @@ void h_weighted(void)
 }
 #endif
 
-/* ------------------------------------------------------------------ bounded units: an arbitrary interval set with at most NV intervals */
-#if defined UNIT_c17_remove || defined UNIT_c17_insert
 /* storage: one heap object of exactly cap elements, n of them live.  cap is either n (full vector: the next insert
    reallocates, and any access past the live elements is a pointer obligation) or 8 (the capacity Zones() reserves).
    Constant-size allocations keep the objects typed arrays for the verifier. */
@@ -451,6 +456,40 @@ static Exclusion *alloc_elems(size_t cap)
     __CPROVER_assume(a != NULL);
     return a;
 }
+
+#if defined UNIT_c17_vec_insert || defined UNIT_c17_vec_erase
+static Exclusions *mk_vector(size_t n, size_t cap)
+{
+    Exclusions *v = malloc(sizeof(Exclusions)); __CPROVER_assume(v != NULL);
+    Exclusion *a = alloc_elems(cap);
+    v->m_first = a; v->m_last = a + n; v->m_end = a + cap;
+    return v;
+}
+void h_vec_insert(void)
+{
+    size_t n = nondet_size_t(), cap = nondet_size_t(), idx = nondet_size_t();
+    __CPROVER_assume(n < VMAX && cap >= 1 && cap <= 8 && n <= cap && idx <= n);
+    Exclusions *v = mk_vector(n, cap);
+    Exclusion x; x.open = nondet_bool();
+    vec_snapshot(v, v->m_first + idx);
+    Exclusion *r = Vector_insert(v, v->m_first + idx, x);
+    (void)r;
+    CANARY();
+}
+void h_vec_erase(void)
+{
+    size_t n = nondet_size_t(), cap = nondet_size_t(), idx = nondet_size_t();
+    __CPROVER_assume(n <= VMAX && cap >= 1 && cap <= 8 && n <= cap && idx < n);
+    Exclusions *v = mk_vector(n, cap);
+    vec_snapshot(v, v->m_first + idx);
+    Exclusion *r = Vector_erase(v, v->m_first + idx);
+    (void)r;
+    CANARY();
+}
+#endif
+
+/* ------------------------------------------------------------------ bounded units: an arbitrary interval set with at most NV intervals */
+#if defined UNIT_c17_remove || defined UNIT_c17_insert
 static Zones *mk_zones(size_t n, size_t cap, const uint32 *bx, const uint32 *bxm, uint32 bpos, uint32 bposm)
 {
     Zones *z = malloc(sizeof(Zones)); __CPROVER_assume(z != NULL);
